@@ -379,3 +379,70 @@ def _pelt_spec(mt, tab):
     if abs(mt["impl_scores"][-1] - F[n]) > tol:
         return f"final score {mt['impl_scores'][-1]!r} is not the optimal penalised cost {F[n]!r}"
     return None
+
+
+HEADER_CAPA = ("From Coq Require Import PrimFloat List Arith Bool.\n"
+               "From SK Require Import Lib.Base Model.Generic Model.GenericF Model.GenericCapa Check.GenericCheck Check.GenericCapaCheck.\n"
+               "Import ListNotations.\nOpen Scope float_scope.")
+
+
+def capa_float_stream(ctx, count):
+    """CAPA / MVCAPA with the real L2 saving on float data against the generic dynamic programme on primitive floats (Check/GenericCapaCheck.v).
+    Configurations are restricted to those whose floating-point OPERATION ORDER the model shares with NumPy: one or two columns when the penalised saving is a plain
+    row sum (a sum of at most two terms has one order), any number of columns when the per-component penalties differ (sort + sequential cumsum)."""
+    from skchange.anomaly_detectors import CAPA, MVCAPA
+    from skchange.anomaly_scores import L2Saving
+    rng = ctx.rng
+    terms, metas = [], []
+    for it in range(count):
+        kind = ["capa", "mvcapa-unequal", "mvcapa-equal"][it % 3]
+        p = rng.choice([1, 2]) if kind != "mvcapa-unequal" else rng.choice([2, 3, 4])
+        n = rng.randint(8, 24)
+        m = rng.choice([2, 3])
+        M = rng.choice([m + 2, 8, n])
+        X = np.asarray([[rng.gauss(0, 1) for _ in range(p)] for _ in range(n)])
+        a = rng.randint(1, n - m - 1)
+        X[a:a + rng.randint(m, min(M, n - a)), : rng.randint(1, p)] += rng.choice([3.0, -4.0])
+        X[rng.randrange(n), rng.randrange(p)] += rng.choice([7.0, -9.0])
+        ac, ap = float(rng.choice([1.5, 4.25, 9.0])), float(rng.choice([2.5, 6.0, 12.75]))
+        if kind == "capa":
+            bc = bp = [0.0] * p
+            d = CAPA(min_segment_length=m, max_segment_length=M).fit(X)
+            d.collective_penalty_, d.point_penalty_ = ac, ap
+        else:
+            if kind == "mvcapa-equal":
+                bc = bp = [float(rng.choice([0.5, 1.25]))] * p
+            else:
+                while True:
+                    bc = [float(rng.choice([0.25, 0.5, 1.25, 3.0])) for _ in range(p)]
+                    if len(set(bc)) > 1:
+                        break
+                bp = list(bc)
+            mk = lambda al, be: (lambda n, p, n_params_per_variable=1, scale=1.0: (float(al), np.array(be, dtype=float)))
+            d = MVCAPA(min_segment_length=m, max_segment_length=M, collective_penalty=mk(ac, bc), point_penalty=mk(ap, bp)).fit(X)
+        y = d.predict(X)
+        scores = d.transform_scores(X).to_numpy().reshape(-1)
+        iv = [(int(l), int(r)) for l, r in zip(y["ilocs"].array.left, y["ilocs"].array.right)]
+        coll, pts = [t for t in iv if t[1] - t[0] > 1], [t for t in iv if t[1] - t[0] == 1]
+        sc = L2Saving().fit(X)
+        tab = [[[] for _ in range(n + 1)] for _ in range(n + 1)]
+        cuts = [(s, e) for s in range(n) for e in range(s + m, min(n, s + M) + 1)]
+        for (s, e), row in zip(cuts, sc.evaluate(np.asarray(cuts))):
+            tab[s][e] = [float(v) for v in row]
+        sp = [[float(v) for v in row] for row in sc.evaluate(np.asarray([(t, t + 1) for t in range(n)]))]
+        terms.append("{| fa_n := %d%%nat; fa_m := %d%%nat; fa_M := %d%%nat; fa_ac := %s; fa_bc := %s; fa_ap := %s; fa_bp := %s; fa_sc := %s; fa_sp := %s; "
+                     "fa_scores := %s; fa_coll := %s; fa_pts := %s |}"
+                     % (n, m, M, fl(ac), flist(bc), fl(ap), flist(bp), coq_list([coq_list([flist(c) for c in r]) for r in tab]), coq_list([flist(r) for r in sp]),
+                        flist(scores), pairs_nat(coll), pairs_nat(pts)))
+        metas.append({"detector": "CAPA" if kind == "capa" else "MVCAPA", "penalty_shape": kind, "n": n, "p": p, "min_segment_length": m, "max_segment_length": M,
+                      "alpha_collective": ac, "betas_collective": bc, "alpha_point": ap, "betas_point": bp, "X": X.tolist(), "impl_anomalies": [list(t) for t in iv],
+                      "impl_final_score": float(scores[-1])})
+        ctx.case({"float": "capa", "it": it, "n": n, "p": p, "kind": kind, "x0": float(X[0, 0])}, nontrivial=len(iv) > 0,
+                 sample={"stream": "binary64-table " + kind, "n": n, "p": p, "m": m, "M": M, "impl_anomalies": iv})
+        ctx.count("float_stream", "capa:" + kind)
+    bad = coq_bad_cases(ctx.cid, HEADER_CAPA, "fcapa_case", "fcapa_case_ok", terms, shard=10, tag="fcapa")
+    for i in bad[:20]:
+        mt = metas[i]
+        ctx.mismatch(f"{mt['detector']} ({mt['penalty_shape']}) on float data (n={mt['n']}, p={mt['p']}, m={mt['min_segment_length']}, M={mt['max_segment_length']}): the generic dynamic "
+                     f"programme evaluated on the binary64 savings of the real scorer does not reproduce the implementation (anomalies {mt['impl_anomalies']} / scores bit for bit)", mt,
+                     {"what": "float-table-mismatch", "detector": mt["detector"]})
